@@ -35,6 +35,8 @@ struct RunCfg {
     sizes: Vec<usize>,
     stale: bool,
     init_ops: Vec<Op>,
+    register_all: bool,
+    family: Option<String>,
     max_states: usize,
     label: String,
 }
@@ -81,7 +83,7 @@ fn canonicalise(mut snap: Value, mut stale: Vec<String>) -> State {
 
 fn concretise(st: &State, which: u8, now: i64) -> (Value, Box<dyn Fn(u64) -> u64 + Send>) {
     let f: Box<dyn Fn(u64) -> u64 + Send> = if which == 0 {
-        Box::new(|r| 10 * (r + 1))
+        Box::new(|r| r + 1)
     } else {
         Box::new(|r| 7 * (r + 1) + 3)
     };
@@ -1235,7 +1237,12 @@ fn state_oracles(cfg: &RunCfg, prop: &str, snap: &Value) -> Vec<(String, String)
 /// hence deterministic.  Oracles run only after all steps, so the hash-key sequence seen by the
 /// broker code is the same for every property and for both concretisations.
 fn steps_of(cfg: &RunCfg, st: &State, which: u8) -> Vec<(Op, Option<Edge>)> {
-    let ops = enabled_ops(cfg, st);
+    // a query API that panics on this state (possible only after the store was corrupted by an
+    // earlier operation) is reported by the state oracles; nothing can be expanded then
+    let ops = match std::panic::catch_unwind(std::panic::AssertUnwindSafe(|| enabled_ops(cfg, st))) {
+        Ok(o) => o,
+        Err(_) => return vec![],
+    };
     let mut v = vec![];
     for op in ops {
         let e = std::panic::catch_unwind(std::panic::AssertUnwindSafe(|| step(cfg, st, &op, which))).ok();
@@ -1260,10 +1267,13 @@ fn expand_state(cfg: &RunCfg, prop: &str, st: &State, seed: u64) -> Expansion {
     let mine = steps_of(cfg, st, 0);
     let theirs = other.join().unwrap_or_default();
     let imax_broken = !imax_ok(&st.snap);
-    let state_viol = match std::panic::catch_unwind(std::panic::AssertUnwindSafe(|| state_oracles(cfg, prop, &st.snap))) {
+    let mut state_viol = match std::panic::catch_unwind(std::panic::AssertUnwindSafe(|| state_oracles(cfg, prop, &st.snap))) {
         Ok(v) => v,
-        Err(_) => vec![("panic-in-query".into(), "a query API panicked".into())],
+        Err(_) => vec![("panic-in-query".into(), "a query API (cluster / proxy view) panicked on this state".into())],
     };
+    if state_viol.is_empty() && std::panic::catch_unwind(std::panic::AssertUnwindSafe(|| { views_of(&cfg.broker, &st.snap, cfg.broker.migration_limit); views_of(&cfg.broker, &st.snap, 0); })).is_err() {
+        state_viol.push(("panic-in-query".into(), "a query API (cluster / proxy view) panicked on this state".into()));
+    }
     let mut edges = vec![];
     for (i, (op, e)) in mine.into_iter().enumerate() {
         match e {
@@ -1272,6 +1282,9 @@ fn expand_state(cfg: &RunCfg, prop: &str, st: &State, seed: u64) -> Expansion {
                     .unwrap_or_else(|_| vec![("panic-in-query".into(), "a query API panicked while evaluating the edge".into())]);
                 let ka = h128(&state_key(&ea.next));
                 let mismatch = match theirs.get(i) {
+                    // with a cluster epoch ahead of the global epoch the rank argument does not
+                    // apply (reported separately), so a mismatch there proves nothing
+                    _ if imax_broken => false,
                     Some(Some((res_b, kb, key_b))) => {
                         let m = ka != *kb || ea.res.split(':').next() != res_b.split(':').next();
                         if m {
@@ -1313,6 +1326,8 @@ fn cfg_from_json(v: &Value) -> RunCfg {
         sizes: serde_json::from_value(v["sizes"].clone()).expect("sizes"),
         stale: v["stale"].as_bool().unwrap_or(false),
         init_ops: vec![],
+        register_all: true,
+        family: None,
         max_states: 0,
         label: v["label"].as_str().unwrap_or("").to_string(),
     }
@@ -1323,13 +1338,17 @@ fn run_search(cli: &Cli, cfg: &RunCfg, prop: &str, hash_seeds: u64) -> (Stats, V
     let wall_cap = if cli.thorough() { 3000.0 } else { 200.0 };
     // initial state
     let b = Broker::empty(&cfg.broker);
-    for (addr, host, index) in cfg.layout.proxies() {
-        let r = b.apply(&Op::AddProxy { addr, host, index });
-        assert_eq!(r, "OK");
+    if cfg.register_all {
+        for (addr, host, index) in cfg.layout.proxies() {
+            let r = b.apply(&Op::AddProxy { addr, host, index });
+            assert_eq!(r, "OK");
+        }
     }
     for op in &cfg.init_ops {
         let r = b.apply(op);
-        assert!(r.starts_with("OK"), "init op {:?} -> {}", op, r);
+        if !r.starts_with("OK") {
+            machinery_error(&format!("init op {:?} of {} -> {}", op, cfg.label, r));
+        }
     }
     let init = canonicalise(b.snapshot(), vec![]);
     let seen: Arc<Vec<Mutex<HashSet<u128>>>> = Arc::new((0..64).map(|_| Mutex::new(HashSet::new())).collect());
@@ -1380,6 +1399,14 @@ fn run_search(cli: &Cli, cfg: &RunCfg, prop: &str, hash_seeds: u64) -> (Stats, V
                     };
                     if exp.imax_broken {
                         local.imax_broken += 1;
+                        if prop == "C04" && hs_i == 0 {
+                            lfound.push(Found {
+                                key: "state:stored-epoch-ahead-of-global-epoch".into(),
+                                desc: "a cluster or migration epoch is greater than the global epoch: the next mutator re-uses that epoch for changed metadata, and removing the cluster serves its proxies the smaller global epoch".into(),
+                                replay: state_replay(&cfg, st, seed, json!("imax")),
+                                depth,
+                            });
+                        }
                     }
                     if hs_i == 0 {
                         for (k, d) in exp.state_viol {
@@ -1463,10 +1490,12 @@ fn run_search(cli: &Cli, cfg: &RunCfg, prop: &str, hash_seeds: u64) -> (Stats, V
         nf.sort_by_cached_key(|s| h128(&state_key(s)));
         let mut s = stats.lock().unwrap();
         s.max_depth_completed = depth;
-        eprintln!(
-            "[{}] {} level {} done: states {} transitions {} next frontier {} ({:.0}s)",
-            prop, cfg.label, depth, s.states, s.transitions, nf.len(), t0.elapsed().as_secs_f64()
-        );
+        if cfg.family.is_none() {
+            eprintln!(
+                "[{}] {} level {} done: states {} transitions {} next frontier {} ({:.0}s)",
+                prop, cfg.label, depth, s.states, s.transitions, nf.len(), t0.elapsed().as_secs_f64()
+            );
+        }
         if nf.is_empty() && !last_level {
             s.exhausted = true;
         }
@@ -1487,7 +1516,7 @@ fn run_search(cli: &Cli, cfg: &RunCfg, prop: &str, hash_seeds: u64) -> (Stats, V
 }
 
 fn op_concrete(op: &Op, which: u8) -> Value {
-    let f = move |r: u64| if which == 0 { 10 * (r + 1) } else { 7 * (r + 1) + 3 };
+    let f = move |r: u64| if which == 0 { r + 1 } else { 7 * (r + 1) + 3 };
     let o = match op {
         Op::Commit { task } => Op::Commit { task: map_task_epoch(task, &f) },
         o => o.clone(),
@@ -1510,6 +1539,9 @@ fn replay(cli: &Cli, path: &str) -> i32 {
         let (cfg2, st2, prop2) = (cfg.clone(), st.clone(), prop.clone());
         let exp = det::on_fresh_thread(seed, 16 << 20, move || expand_state(&cfg2, &prop2, &st2, seed)).expect("expansion");
         let mut out = vec![];
+        if exp.imax_broken && prop == "C04" {
+            out.push(("state:stored-epoch-ahead-of-global-epoch".to_string(), "a stored epoch is greater than the global epoch".to_string()));
+        }
         for (k, d) in exp.state_viol {
             out.push((format!("state:{}", k), d));
         }
@@ -1554,6 +1586,8 @@ fn configs(cli: &Cli, prop: &str) -> Vec<RunCfg> {
             sizes,
             stale,
             init_ops: init,
+            register_all: true,
+            family: None,
             max_states,
         }
     };
@@ -1599,7 +1633,110 @@ fn configs(cli: &Cli, prop: &str) -> Vec<RunCfg> {
         v.push(mk(&[2, 2, 2], false, 2, 3, Profile::General, vec![4, 8], created(), false, 60_000));
         v.push(mk(&[1; 6], true, 1, 4, Profile::General, vec![4, 8], mid_out(), false, 60_000));
     }
+    if prop == "C12" || prop == "C06" {
+        v.extend(constructed_family(thorough));
+    }
     v
+}
+
+/// "Start from non-initial states": every link table of up to `k` chunks over `H` hosts x every
+/// free-proxy vector, built chunk by chunk through the real API (register exactly two proxies on
+/// the wanted hosts, then create / extend), followed by one exhaustive step (every failover,
+/// report, removal, ...).  Reaches the skewed histories a BFS from a fully registered layout
+/// cannot reach within its depth.
+fn constructed_family(thorough: bool) -> Vec<RunCfg> {
+    let hosts = 3usize;
+    let pairs: Vec<(usize, usize)> = vec![(0, 1), (0, 2), (1, 2)];
+    let kmax = 3usize;
+    let mut out = vec![];
+    let mut chunk_lists: Vec<Vec<(usize, usize)>> = vec![];
+    for k in 1..=kmax {
+        let total = pairs.len().pow(k as u32);
+        for code in 0..total {
+            let mut x = code;
+            let mut l = vec![];
+            for _ in 0..k {
+                l.push(pairs[x % pairs.len()]);
+                x /= pairs.len();
+            }
+            chunk_lists.push(l);
+        }
+    }
+    let free_max = if thorough { 2 } else { 1 };
+    let free_vecs: Vec<Vec<usize>> = {
+        let mut v = vec![];
+        let total = (free_max + 1usize).pow(hosts as u32);
+        for code in 0..total {
+            let mut x = code;
+            let mut f = vec![];
+            for _ in 0..hosts {
+                f.push(x % (free_max + 1));
+                x /= free_max + 1;
+            }
+            v.push(f);
+        }
+        v
+    };
+    for chunks in &chunk_lists {
+        for free in &free_vecs {
+            for separate in [false, true] {
+                if separate && (chunks.len() == 1 || !thorough && chunks.len() == 3) {
+                    continue;
+                }
+                let mut used = vec![0usize; hosts];
+                let mut counts = vec![0usize; hosts];
+                for (a, b) in chunks {
+                    counts[*a] += 1;
+                    counts[*b] += 1;
+                }
+                for h in 0..hosts {
+                    counts[h] += free[h];
+                }
+                let layout = Layout::new(&counts);
+                let hname = |h: usize| layout.hosts[h].0.clone();
+                let mut idx = 0usize;
+                let mut reg = |h: usize, used: &mut Vec<usize>, ops: &mut Vec<Op>| {
+                    let addr = format!("{}:70{:02}", hname(h), used[h]);
+                    used[h] += 1;
+                    ops.push(Op::AddProxy { addr, host: hname(h), index: idx });
+                    idx += 1;
+                };
+                let mut ops = vec![];
+                for (i, (a, b)) in chunks.iter().enumerate() {
+                    reg(*a, &mut used, &mut ops);
+                    reg(*b, &mut used, &mut ops);
+                    if i == 0 {
+                        ops.push(Op::AddCluster { name: "c1".into(), n: 4 });
+                    } else if separate {
+                        ops.push(Op::AddCluster { name: format!("c{}", i + 1), n: 4 });
+                    } else {
+                        ops.push(Op::AutoAddNodes { name: "c1".into(), n: 4 });
+                    }
+                }
+                for h in 0..hosts {
+                    for _ in 0..free[h] {
+                        reg(h, &mut used, &mut ops);
+                    }
+                }
+                let clusters: Vec<String> = if separate { (0..chunks.len()).map(|i| format!("c{}", i + 1)).collect() } else { vec!["c1".into()] };
+                out.push(RunCfg {
+                    label: format!("constructed/chunks {:?}/free {:?}/separate {}", chunks, free, separate),
+                    layout,
+                    broker: BrokerCfg { ordered: false, migration_limit: 1, failure_quorum: 1, failure_ttl: 100000 },
+                    profile: Profile::General,
+                    depth: 1,
+                    clusters,
+                    sizes: vec![4],
+                    stale: false,
+                    init_ops: ops,
+                    register_all: false,
+                    family: Some("constructed link tables".into()),
+                    max_states: 100_000,
+                });
+            }
+        }
+    }
+    out
 }
 
 fn main() {
@@ -1627,6 +1764,7 @@ fn main() {
     let mut total = Stats::default();
     let mut all_found: Vec<Found> = vec![];
     let mut per_cfg = vec![];
+    let mut family_acc: BTreeMap<String, (usize, usize, usize)> = BTreeMap::new();
     let cfgs = configs(&cli, &prop);
     let only = cli.opt("--only").and_then(|s| s.parse::<usize>().ok());
     for (ci, cfg) in cfgs.iter().enumerate() {
@@ -1636,11 +1774,18 @@ fn main() {
             }
         }
         let (s, f) = run_search(&cli, cfg, &prop, hash_seeds);
+        if let Some(fam) = &cfg.family {
+            let e = family_acc.entry(fam.clone()).or_insert((0usize, 0usize, 0usize));
+            e.0 += 1;
+            e.1 += s.states;
+            e.2 += s.transitions;
+        } else {
         per_cfg.push(json!({
             "config": cfg.label, "states": s.states, "transitions": s.transitions, "nontrivial_transitions": s.nontrivial,
             "max_depth_completed": s.max_depth_completed, "frontier_exhausted": s.exhausted, "cap_hit": s.cap_hit,
             "results": s.results, "ops": s.ops, "hash_seed_new_successors": s.seed_new_successors,
         }));
+        }
         total.states += s.states;
         total.transitions += s.transitions;
         total.nontrivial += s.nontrivial;
@@ -1654,11 +1799,8 @@ fn main() {
         }
         all_found.extend(f);
     }
-    if total.conc_mismatch > 0 || total.imax_broken > 0 {
-        machinery_error(&format!(
-            "state canonicalisation argument failed: {} concretisation mismatches, {} states where global epoch is not the maximum",
-            total.conc_mismatch, total.imax_broken
-        ));
+    if total.conc_mismatch > 0 {
+        machinery_error(&format!("state canonicalisation argument failed: {} concretisation mismatches", total.conc_mismatch));
     }
     all_found.sort_by(|a, b| (a.depth, &a.key).cmp(&(b.depth, &b.key)));
     let violations: Vec<Violation> = all_found
@@ -1678,7 +1820,9 @@ fn main() {
         "bound": "all operation sequences up to the per-configuration depth (see configs); exhaustive=false means a state/wall cap stopped a configuration before its depth, max_depth_completed says where",
         "hash_seeds_per_transition": hash_seeds,
         "hash_seed_new_successors": total.seed_new_successors,
+        "states_where_global_epoch_is_not_the_maximum": total.imax_broken,
         "configs": per_cfg,
+        "start_state_families": family_acc.iter().map(|(k, v)| json!({"family": k, "start_states": v.0, "states": v.1, "transitions": v.2, "depth": 1})).collect::<Vec<_>>(),
         "explanation": "every transition is one call of a public MemBrokerService method on a service restored from the pre-state snapshot; there is no separate model, so every transition counted is validated against the implementation by construction",
     });
     let code = rep.finish(cov, violations);
